@@ -167,7 +167,8 @@ fn run_replay(args: &[String]) -> i32 {
     for v in &ctx.violations {
         println!("  [{}] {} :: {}", v.clause, v.signature, v.detail);
     }
-    if ctx.evals == 0 {
+    // a check may report a violation and leave the case before registering it as evaluated
+    if ctx.evals == 0 && ctx.violations.is_empty() {
         println!("INCONCLUSIVE: the replayed case was not reached");
         return 0;
     }
